@@ -1830,11 +1830,9 @@ func ExecSelect(query *Query, current []any) ([]any, error) {
 		switch current := current.(type) {
 		case []any:
 			{
-				rs, err := ExecSelect(query, current)
-				if err != nil {
-					return nil, err
-				}
-				copy = append(copy, rs)
+				// an inner array has been evaluated as a table of its own, select
+				// list included: it is a result, not rows to project
+				copy = append(copy, current)
 			}
 		case Map:
 			{
